@@ -11,12 +11,15 @@ Open Scope Z_scope.
 
 (** ** CIGAR operations (SAMv1 1.4, table of CIGAR operations; BAM codes 0..8)
     and the 'B' extension (code 9, "move backwards on the reference"). *)
-Inductive cop := opM | opI | opD | opN | opS | opH | opP | opEQ | opX | opB.
+Inductive cop := opM | opI | opD | opN | opS | opH | opP | opEQ | opX | opB
+  | opU.  (* codes 10..15: not an operation of SAMv1; it describes nothing, so it
+             consumes neither query nor reference and is neither S nor H *)
 
 Definition cop_of_code (k : Z) : option cop :=
   match k with
   | 0 => Some opM | 1 => Some opI | 2 => Some opD | 3 => Some opN | 4 => Some opS
   | 5 => Some opH | 6 => Some opP | 7 => Some opEQ | 8 => Some opX | 9 => Some opB
+  | 10 | 11 | 12 | 13 | 14 | 15 => Some opU
   | _ => None
   end.
 
